@@ -207,7 +207,8 @@ func (m *M) check(b, route string, a Args, pre *snapshot, r *world.Result) {
 		}
 
 		// ------------- C03: locked / unconfirmed accounts never complete a login ---------
-		if u != nil && route != "register" {
+		// (the remember cookie is not an interactive login flow; C03 does not speak about it)
+		if u != nil && route != "register" && lic != "remember" {
 			locked := cfg.Has("lock") && u.Locked.After(pre.now)
 			unconf := cfg.Has("confirm") && !u.Confirmed
 			if locked || unconf {
@@ -216,17 +217,17 @@ func (m *M) check(b, route string, a Args, pre *snapshot, r *world.Result) {
 					why = "unconfirmed"
 				}
 				site := "route:" + route
-				if lic == "remember" && route != "login" {
-					site = "remember-cookie"
-				}
 				m.violate("C03", site+":"+why, fmt.Sprintf("%s account %q completed a login via %s", why, U, route), b)
 			}
 		}
 	}
 
 	// ---------------- C03: lock / confirm middlewares ----------------------------------
-	if (route == "lockmw" || route == "confirmmw") && r.Probe != nil && r.Probe.Ran {
+	if (route == "lockmw" || route == "confirmmw" || route == "rootmw") && r.Probe != nil && r.Probe.Ran {
 		if u := pu(r.Probe.PID); u != nil {
+			if route == "rootmw" && (u.Locked.After(pre.now) || !u.Confirmed) {
+				m.violate("C03", "root.Middleware", "lock/confirm middlewares on the site root passed a locked or unconfirmed user to the wrapped handler", b)
+			}
 			if route == "lockmw" && u.Locked.After(pre.now) {
 				m.violate("C03", "lock.Middleware", "lock middleware passed a locked user to the wrapped handler", b)
 			}
